@@ -10,7 +10,7 @@ import calendar
 import datetime as dt
 
 from simkit import clockdrive, world
-from simkit.canon import canon_dt
+from simkit.canon import canon_dt, dec_value, enc_value
 
 PROP = "C14"
 LEVEL = "exploration"
@@ -30,6 +30,8 @@ FORMATS = [
     # partial
     "%B %Y", "%b %Y", "%m/%Y", "%Y-%m", "%Y", "%y", "%d %B", "%d/%m", "%B %d", "%d %b %H:%M", "%B", "%b", "%m", "%d",
     "%H:%M", "%I:%M %p", "%H:%M:%S.%f", "%H:%M:%S", "%d %H:%M", "%Y %H:%M",
+    # year-less day-of-year
+    "%j %H:%M", "%H:%M:%S (%j)", "%j",
 ]
 NAMED = [f for f in FORMATS if any(x in f for x in ("%B", "%b", "%A", "%a"))]
 
@@ -46,7 +48,7 @@ ASSUMPTIONS = [
     "localized names are used only if the language itself reads '15 <name> 2015' as that month in a heuristic parse (single-meaning names)",
     "pytz gives the local fields of the simulated instant (independent of the C library the code under test uses)",
 ]
-EXPECTED_PROBES = {"several_matching_formats": 1, "rendered_time_on_a_dst_edge_of_the_process_zone": 1, "clock_year_used": 1, "clock_day_used": 1, "clock_month_used": 1, "localized": 1, "tick_straddle": 1, "utc_local_date_differ": 1}
+EXPECTED_PROBES = {"relative_base_given": 1, "yearless_day_of_year": 1, "several_matching_formats": 1, "rendered_time_on_a_dst_edge_of_the_process_zone": 1, "clock_year_used": 1, "clock_day_used": 1, "clock_month_used": 1, "localized": 1, "tick_straddle": 1, "utc_local_date_differ": 1}
 
 
 def fields_of(fmt):
@@ -138,6 +140,8 @@ def expected_set(fmt, d, prefs, read_us, zone):
             for cm in ms:
                 for cd in ds:
                     year = d.year if "year" in has else cy
+                    if "%j" in fmt and "year" not in has and year is not None and calendar.isleap(year) and (d.month, d.day) >= (2, 29):
+                        return set()  # a year-less day-of-year >= 60 in a leap current year: the statement does not say in which calendar it counts
                     if "month" in has:
                         month = d.month
                     else:
@@ -310,6 +314,8 @@ def gen_case(rng, ctx):
             day = rng.randrange(1, calendar.monthrange(y, m)[1] + 1)
         if "year" not in has and m == 2 and day == 29:
             continue
+        if "%j" in fmt and "year" not in has and calendar.isleap(y):
+            continue  # rendered day-of-year counts in a common year
         break
     dst_edge = False
     hour = rng.choice([0, 0, 11, 12, 13, 23, rng.randrange(24)])
@@ -318,7 +324,7 @@ def gen_case(rng, ctx):
         # a wall-clock time that the *process zone* skips or repeats (DST change): to a custom format
         # it is a datetime like any other -- the naive result must come back unchanged
         g = dst_edge_wall(rng, zone)
-        if g is not None and not ("year" not in has and g.month == 2 and g.day == 29):
+        if g is not None and not ("year" not in has and g.month == 2 and g.day == 29) and not ("%j" in fmt and "year" not in has and calendar.isleap(g.year)):
             d = g.replace(microsecond=d.microsecond)
             dst_edge = True
     prefs = {}
@@ -362,6 +368,11 @@ def gen_case(rng, ctx):
             dd = dd.replace(year=2000 + rng.randrange(1, 13))
         fmt, decoys, d, kw, lang = pair[0], [pair[1]], dd, {}, rng.choice([None, "en"])
         has = fields_of(fmt)
+    base = None
+    if not localized and rng.random() < 0.12:
+        # a RELATIVE_BASE somewhere else entirely: the custom-format path completes from the system
+        # clock ('the current year'; 'current' day / month), so the base must be irrelevant
+        base = enc_value(dt.datetime(rng.randrange(1995, 2036), rng.randrange(1, 13), rng.randrange(1, 29), rng.randrange(24), rng.randrange(60)))
     s = render(fmt, d, **kw)
     if localized:
         # a localized name that happens to be an English name makes the raw string match the
@@ -374,7 +385,7 @@ def gen_case(rng, ctx):
             pass
     return {
         "zone": zone, "clock_us": clock_us, "policy": policy, "boundary": bkind, "fmt": fmt, "d": [d.year, d.month, d.day, d.hour, d.minute, d.second, d.microsecond],
-        "string": s, "lang": lang, "localized": bool(localized), "prefs": prefs, "dst_edge": dst_edge, "later_formats": decoys,
+        "string": s, "lang": lang, "localized": bool(localized), "prefs": prefs, "dst_edge": dst_edge, "later_formats": decoys, "base": base,
     }
 
 
@@ -391,6 +402,8 @@ def simplify(case):
         yield dict(case, policy=["frozen"])
     if case["zone"] != "UTC":
         yield dict(case, zone="UTC")
+    if case.get("base") is not None:
+        yield dict(case, base=None)
 
 
 def eval_case(case):
@@ -403,6 +416,9 @@ def eval_case(case):
     d = dt.datetime(*case["d"])
     settings = dict(case["prefs"]) or None
     stats = {}
+    if case.get("base") is not None:
+        settings = dict(settings or {}, RELATIVE_BASE=dec_value(case["base"]))
+        stats["relative_base_given"] = 1
     kwargs = {"date_formats": [case["fmt"]] + list(case.get("later_formats") or [])}
     if case.get("later_formats"):
         stats["several_matching_formats"] = 1
@@ -433,6 +449,8 @@ def eval_case(case):
         stats["clock_day_used"] = 1
     if case["localized"]:
         stats["localized"] = 1
+    if "%j" in case["fmt"] and "year" not in has:
+        stats["yearless_day_of_year"] = 1
     if case.get("dst_edge"):
         stats["rendered_time_on_a_dst_edge_of_the_process_zone"] = 1
     if reads and len({local_fields(u, case["zone"]).date() for u in reads}) > 1:
@@ -478,7 +496,7 @@ def eval_case(case):
         if case["localized"]:
             sig["lang"] = case["lang"]
         detail = "parse(%r, date_formats=[%r], languages=%r, settings=%r) under clock %s (%s, %s) -> %s; expected one of %s" % (
-            case["string"], case["fmt"], case["lang"], case["prefs"], world.from_us(case["clock_us"]), case["zone"], case["policy"], res if outcome[0] == "ok" else outcome, sorted(map(str, exp))[:4])
+            case["string"], case["fmt"], case["lang"], settings, world.from_us(case["clock_us"]), case["zone"], case["policy"], res if outcome[0] == "ok" else outcome, sorted(map(str, exp))[:4])
     return {"ok": ok, "key": key, "sig": sig, "detail": detail, "stats": stats, "reads": len(reads), "outcome": outcome, "expected": sorted(map(str, exp))[:4]}
 
 
